@@ -57,7 +57,7 @@ def plan(tier):
 def histories(draw):
     ops, G = gen.gen_model_ops(draw, FEAT)
     for _ in range(draw(st.integers(8, 24))):
-        k = draw(st.integers(0, 15))
+        k = draw(st.sampled_from(list(range(16)) + [12, 12, 12, 12, 13, 15]))     # (the directed scenarios a bit more often)
         sids = gen.all_ctx_ids(G) + gen.item_sids(G, 2)
         if not sids:
             break
